@@ -365,6 +365,35 @@ func (p *PF) run(fn *ssa.Function, entry StateSet, visit func(fn *ssa.Function, 
 								if isNilConst(x) {
 									x, y = y, x
 								}
+								// ... and for an enumeration result compared with one of its constants (switch g.awaitWake(timer, trigger)
+								// { case wakeStopped: …; case wakeTimer: … })
+								if call, ridx := resultCall(x); call != nil {
+									if kc, isK := y.(*ssa.Const); isK && kc.Value != nil && kc.Value.Kind() == constant.Int && switchChain(call, b) {
+										if callee := staticCallee(&call.Call); callee != nil && callee.Blocks != nil && p.InScope(callee) {
+											entry := p.preCall[call]
+											if entry == 0 {
+												for q := 0; q < p.N; q++ {
+													entry |= ss(q)
+												}
+											}
+											// the constants already ruled out on the way here (earlier case tests of the same switch)
+											var excl []constant.Value
+											for d := b; d != call.Block() && d != nil && len(d.Preds) == 1; d = d.Preds[0] {
+												pb := d.Preds[0]
+												if iff2, ok := pb.Instrs[len(pb.Instrs)-1].(*ssa.If); ok {
+													if bin, ok := iff2.Cond.(*ssa.BinOp); ok && bin.Op == token.EQL && pb.Succs[1] == d {
+														if call2, r2 := resultCall(bin.X); call2 == call && r2 == ridx {
+															if k2, ok := bin.Y.(*ssa.Const); ok && k2.Value != nil && k2.Value.Kind() == constant.Int {
+																excl = append(excl, k2.Value)
+															}
+														}
+													}
+												}
+											}
+											es &= p.constExitsExcl(callee, ridx, kc.Value, cf.op == token.EQL, entry, excl)
+										}
+									}
+								}
 								if call, ridx := resultCall(x); call != nil && isNilConst(y) {
 									if callee := staticCallee(&call.Call); callee != nil && callee.Blocks != nil && p.InScope(callee) {
 										entry := p.preCall[call]
@@ -758,6 +787,133 @@ func constBoolArgs(callee *ssa.Function, cc *ssa.CallCommon) map[*ssa.Parameter]
 			out = map[*ssa.Parameter]bool{}
 		}
 		out[o.Params[i]] = constant.BoolVal(k.Value)
+	}
+	return out
+}
+
+
+// constExits: the states in which callee can return with the integer result #ridx equal to k (eq) / different from k (!eq);
+// a result that is not a constant counts for both.
+func (p *PF) constExits(callee *ssa.Function, ridx int, k constant.Value, eq bool, entry StateSet) StateSet {
+	type key struct {
+		fn   *ssa.Function
+		ridx int
+		k    string
+		eq   bool
+		q    int
+	}
+	if p.boolMemo == nil {
+		p.boolMemo = map[interface{}]StateSet{}
+	}
+	all := StateSet(0)
+	for q := 0; q < p.N; q++ {
+		all |= ss(q)
+	}
+	var out StateSet
+	for q := 0; q < p.N; q++ {
+		if !entry.has(q) {
+			continue
+		}
+		kk := key{callee, ridx, k.ExactString(), eq, q}
+		if s, ok := p.boolMemo[kk]; ok {
+			out |= s
+			continue
+		}
+		p.boolMemo[kk] = all // recursion guard
+		var one StateSet
+		for _, e := range p.run(callee, ss(q), nil) {
+			if ridx >= len(e.Ret.Results) {
+				one |= e.States
+				continue
+			}
+			matched := false
+			for _, vr := range virtualReturnsOf(e.Ret, ridx) {
+				kc, isK := vr.val.(*ssa.Const)
+				if !isK || kc.Value == nil || kc.Value.Kind() != constant.Int {
+					matched = true
+					continue
+				}
+				if constant.Compare(kc.Value, token.EQL, k) == eq {
+					matched = true
+				}
+			}
+			if matched {
+				one |= e.States
+			}
+		}
+		p.boolMemo[kk] = one
+		out |= one
+	}
+	return out
+}
+
+
+// switchChain: block b tests the result of call right away: b is the call's own block with nothing but the comparison after
+// the call, or is reached from it through blocks that only compare and branch (the case tests of a switch over the result) -
+// so the typestate cannot have moved between the call and the test.
+func switchChain(call *ssa.Call, b *ssa.BasicBlock) bool {
+	pure := func(blk *ssa.BasicBlock, from int) bool {
+		for _, in := range blk.Instrs[from:] {
+			switch in.(type) {
+			case *ssa.BinOp, *ssa.If, *ssa.DebugRef, *ssa.Extract, *ssa.UnOp:
+			default:
+				return false
+			}
+		}
+		return true
+	}
+	cb := call.Block()
+	if !pure(cb, idxIn(call)+1) {
+		return false
+	}
+	for d := b; d != cb; d = d.Idom() {
+		if d == nil || !pure(d, 0) || len(d.Preds) != 1 {
+			return false
+		}
+	}
+	return true
+}
+
+
+// constExitsExcl: constExits, with the returns whose constant is one of excl left out (they were ruled out before this test).
+func (p *PF) constExitsExcl(callee *ssa.Function, ridx int, k constant.Value, eq bool, entry StateSet, excl []constant.Value) StateSet {
+	if len(excl) == 0 {
+		return p.constExits(callee, ridx, k, eq, entry)
+	}
+	var out StateSet
+	for q := 0; q < p.N; q++ {
+		if !entry.has(q) {
+			continue
+		}
+		for _, e := range p.run(callee, ss(q), nil) {
+			if ridx >= len(e.Ret.Results) {
+				out |= e.States
+				continue
+			}
+			matched := false
+			for _, vr := range virtualReturnsOf(e.Ret, ridx) {
+				kc, isK := vr.val.(*ssa.Const)
+				if !isK || kc.Value == nil || kc.Value.Kind() != constant.Int {
+					matched = true
+					continue
+				}
+				out2 := false
+				for _, x := range excl {
+					if constant.Compare(kc.Value, token.EQL, x) {
+						out2 = true
+					}
+				}
+				if out2 {
+					continue
+				}
+				if constant.Compare(kc.Value, token.EQL, k) == eq {
+					matched = true
+				}
+			}
+			if matched {
+				out |= e.States
+			}
+		}
 	}
 	return out
 }
